@@ -166,6 +166,10 @@ type noClose struct{ desync.Store }
 func (noClose) Close() error { return nil }
 
 func runC03(c *fw.Case) {
+	if desyncBin() != "" && c.Chance(1, procRate(50), "c03.proc") {
+		runC03Proc(c)
+		return
+	}
 	e := &c03Env{c: c, dir: filepath.Join(c.Dir(), "store")}
 	os.MkdirAll(e.dir, 0755)
 	e.upUnc = c.Bool("up.uncompressed")
